@@ -127,30 +127,47 @@ TReset == /\ Trace[l].call.op = "Reset"
           /\ etags' = etags      \* ETag terms are global: same structure => same ETag across programs
           /\ mtimes' = {} /\ prog' = Trace[l].prog /\ taken' = {} /\ l' = l + 1
 
-\* A step TAKES deviation t iff the model with only t enabled answers differently from the
-\* intended model (dev = {}).  By construction of the deviations this is exactly a step at
-\* which the real code (which the full model explains) breaks the property.
-Strip(St) == [St EXCEPT !.dev = {}]
-TakenAt(St, c) ==
-  {t \in St.dev : LET i == Apply(Strip(St), c)
-                      d == Apply([St EXCEPT !.dev = {t}], c)
-                  IN d.r # i.r \/ Strip(d.s) # Strip(i.s)}
+\* The code is explained step by step by the model with SOME set D of the known deviations
+\* enabled.  Candidates are tried in this order: none (the intended design), all, each single
+\* tag, all but one - so the validation keeps accepting the code after any one of the known
+\* findings gets repaired, and reports only the deviations a step really needs.
+DevSeq == SetToSeq(Deviations)
+Cands == <<{}, Deviations>> \o [i \in 1..Len(DevSeq) |-> {DevSeq[i]}]
+                           \o [i \in 1..Len(DevSeq) |-> Deviations \ {DevSeq[i]}]
+With(D) == [S EXCEPT !.dev = D]
+Functional(P) == \A p, q \in P : p[1] = q[1] => p[2] = q[2]
+StepMatches(e, a) ==
+  /\ ResAgrees(e.call, a.r, LRes(e))
+  /\ LViews(e.views) = MViews(a.s)
+  /\ GetAgrees(e, a.s)
+  /\ Functional(mtimes \cup MTimePairs(a.s, e.views))          \* C13: Last-Modified per version identity
+  /\ ETagsConsistent(etags \cup ETagPairs(a.s, e.views))        \* C04: ETag is a function of the structure
+FirstMatch(e) ==
+  IF \E i \in 1..Len(Cands) : StepMatches(e, Apply(With(Cands[i]), e.call))
+  THEN CHOOSE i \in 1..Len(Cands) :
+         /\ StepMatches(e, Apply(With(Cands[i]), e.call))
+         /\ \A j \in 1..(i - 1) : ~StepMatches(e, Apply(With(Cands[j]), e.call))
+  ELSE 0
 
 TCall ==
   LET e == Trace[l]
-      a == Apply(S, e.call)
-      tk == TakenAt(S, e.call)
+      m == FirstMatch(e)
+      D == IF m = 0 THEN Deviations ELSE Cands[m]
+      a == Apply(With(D), e.call)
+      tk == TakenAt(With(D), e.call)
       E == etags \cup ETagPairs(a.s, e.views)
       M == mtimes \cup MTimePairs(a.s, e.views)
   IN
   /\ e.call.op # "Reset"
-  /\ IF ~ResAgrees(e.call, a.r, LRes(e)) THEN Diag(l, "result", a, e) /\ FALSE
-     ELSE IF LViews(e.views) # MViews(a.s) THEN Diag(l, "views", a, e) /\ FALSE
-     ELSE IF ~GetAgrees(e, a.s) THEN Diag(l, "get", a, e) /\ FALSE
+  /\ IF m = 0
+     THEN Diag(l, IF ~ResAgrees(e.call, a.r, LRes(e)) THEN "result"
+                  ELSE IF LViews(e.views) # MViews(a.s) THEN "views"
+                  ELSE IF ~GetAgrees(e, a.s) THEN "get"
+                  ELSE IF ~Functional(M) THEN "mtime" ELSE "etag", a, e) /\ FALSE
      ELSE IF ~FlagsOK(e.views) THEN Diag(l, "flags", a, e) /\ FALSE
-     ELSE IF tk # {} THEN PrintT(ToJson([l |-> l, prog |-> prog, what |-> "deviation", tags |-> tk])) 
+     ELSE IF tk # {} THEN PrintT(ToJson([l |-> l, prog |-> prog, what |-> "deviation", tags |-> tk]))
      ELSE TRUE
-  /\ S' = a.s /\ res' = a.r /\ hist' = <<e.call>>
+  /\ S' = [a.s EXCEPT !.dev = Deviations] /\ res' = a.r /\ hist' = <<e.call>>
   /\ etags' = E /\ mtimes' = M
   /\ prog' = prog /\ taken' = taken \cup tk /\ l' = l + 1
 
